@@ -158,20 +158,20 @@ def corruption_test(run, prop, src_dir, corrupt_fn, n=8):
 FAM_STRIDE = {  # family: (quick stride, thorough stride); stride 1 = exhaustive
     "EP": (331, 6), "EPEDGE": (1, 1), "ONLYEP": (7, 1), "PIN": (53, 1), "CASTLE": (5, 1),
     "PROMO": (2, 1), "MAT": (61, 2), "CHK": (1999, 37), "AMBIG": (997, 11), "RAW": (1, 1), "MINOR": (23, 1), "MULTICHK": (499, 3), "ROOKCAP": (1, 1), "EPCHK": (997, 9), "STALEMIN": (3, 1), "EPX": (13, 1), "EPCHKX": (41, 1), "PINMATE": (23, 1), "DBLCHK": (1, 1), "DBLPIN": (499, 5),
-    "ONLYDBL": (3, 1), "PROMOEP": (1, 1), "CASTLEEP": (1, 1),
+    "ONLYDBL": (3, 1), "PROMOEP": (1, 1), "CASTLEEP": (1, 1), "BATTERY": (149, 3), "EDGEPAWN": (1, 1),
 }
 FAMS_FOR = {
-    "C01": ["EP", "EPX", "EPEDGE", "ONLYEP", "PIN", "DBLPIN", "CASTLE", "PROMO", "CHK", "MULTICHK"],
+    "C01": ["EP", "EPX", "EPEDGE", "ONLYEP", "PIN", "DBLPIN", "CASTLE", "PROMO", "CHK", "MULTICHK", "BATTERY", "EDGEPAWN"],
     "C03": ["EP", "EPEDGE", "CASTLE", "CASTLEEP", "PROMO", "PROMOEP", "MAT", "ROOKCAP"],
-    "C06": ["EP", "EPEDGE", "PIN", "CASTLE", "PROMO", "CHK"],
+    "C06": ["EP", "EPEDGE", "PIN", "CASTLE", "PROMO", "CHK", "BATTERY", "EDGEPAWN"],
     "C07": ["EPX", "ONLYEP", "ONLYDBL", "PINMATE", "PIN", "MAT", "MINOR", "STALEMIN", "CHK", "MULTICHK", "CASTLE"],
-    "C16": ["PIN", "CHK", "CASTLE", "MULTICHK", "EP"],
+    "C16": ["PIN", "CHK", "CASTLE", "MULTICHK", "EP", "BATTERY", "EDGEPAWN"],
     "C04": ["EP", "CASTLE", "CASTLEEP", "PROMO", "PROMOEP", "ROOKCAP"],
     "C05": ["EP", "CASTLE", "CASTLEEP", "PROMO", "PROMOEP", "ROOKCAP"],
     "C09": ["AMBIG", "PIN", "DBLPIN", "PROMO", "EPX", "EPEDGE", "EPCHKX", "DBLCHK", "MULTICHK", "CASTLE"],
-    "C10": ["EPX", "EPEDGE", "CASTLE", "PROMO"],
+    "C10": ["EPX", "EPEDGE", "CASTLE", "PROMO", "BATTERY"],
     "C11": ["RAW", "EPEDGE", "CASTLE"],
-    "C18": ["EP", "ONLYEP", "CASTLE", "ROOKCAP", "MAT", "MINOR", "PIN", "CHK"],
+    "C18": ["EP", "ONLYEP", "CASTLE", "ROOKCAP", "MAT", "MINOR", "PIN", "CHK", "EDGEPAWN"],
     "C14": ["STALEMIN", "MINOR", "MAT", "ONLYDBL", "PINMATE"],
     "C17": ["PROMO", "AMBIG", "CASTLE"],
     "C19": ["CHK", "AMBIG", "MULTICHK", "EPEDGE"],
